@@ -20,6 +20,9 @@
      scalar EXT N TWOD | FILE  child: a grid of N vertices (global = local, vertex i at (i, 2i, 3i)), ref_part_scalar
                              -> ok LDIM {v*LDIM}*N | <status> | crash .. | timeout | bloat       EXT: rst snap plt sol solb
                              (for plt only `ok LDIM`: the values are placed by a nearest-vertex search)
+     hazard_imp EXT | FILE / hazard EXT | FILE / hazard_scalar EXT N TWOD | FILE / hazard_exp EXT MESH
+                             = imp / robust / scalar / exp, answered `hazard` when the child crashed, ran into the time limit
+                             or touched more than 300 MB, else `clean` (replays of the *_counterexample witnesses)
      mapbc | FILE            child: ref_phys_read_mapbc            -> ok N {id type}*N wall {id}* | <status> | crash ..
      mapbc_token TOK | FILE  child: ref_phys_read_mapbc_token       -> ok N {id type}*N | <status> | crash ..
    <dump> = twod T n NN {x y z}*NN edg N {a b id}*N tri N .. qua N .. tet N .. pyr N .. pri N .. hex N ..   (0-based)
@@ -492,7 +495,8 @@ static int sane_ext(const char *s) {
   return 1;
 }
 
-static void op_child(int kind) {
+static void op_child(int kind0) {
+  int kind = kind0 % 100, hazard = kind0 >= 100;
   int fd[2], status = 0, robust = (1 == kind || 2 == kind), k;
   struct rusage ru;
   pid_t pid;
@@ -587,6 +591,11 @@ static void op_child(int kind) {
     ob_reset();
     ob_put("returned");
   }
+  if (hazard && 0 != strcmp(ob, "bad-op")) {
+    int bad = (0 == strncmp(ob, "crash", 5) || 0 == strcmp(ob, "timeout") || 0 == strcmp(ob, "bloat"));
+    ob_reset();
+    ob_put(bad ? "hazard" : "clean");
+  }
 }
 
 int main(int argc, char **argv) {
@@ -607,6 +616,10 @@ int main(int argc, char **argv) {
     else if (0 == strcmp(op, "exp")) op_child(3);
     else if (0 == strcmp(op, "rt")) op_child(4);
     else if (0 == strcmp(op, "scalar")) op_child(5);
+    else if (0 == strcmp(op, "hazard_imp")) op_child(100);
+    else if (0 == strcmp(op, "hazard")) op_child(102);
+    else if (0 == strcmp(op, "hazard_scalar")) op_child(105);
+    else if (0 == strcmp(op, "hazard_exp")) op_child(103);
     else if (0 == strcmp(op, "mapbc")) op_child(6);
     else if (0 == strcmp(op, "mapbc_token")) op_child(7);
     else ob_put("bad-op");
